@@ -27,21 +27,20 @@ _cache = {}
 
 
 def dispatch(ex, c, args, fr, dest):
-    ent = _cache.get(c)
-    if ent is None:
+    ents = _cache.get(c)
+    if ents is None:
+        ents = []
         for rx, fn in _TABLE:
             m = rx.match(c)
             if m:
-                ent = (fn, m)
-                break
-        else:
-            ent = (None, None)
-        _cache[c] = ent
-    fn, m = ent
-    if fn is None:
-        return NotImplemented
-    ex.E.stats.models_used.add(fn.__name__)
-    return fn(ex, m, args, fr, dest)
+                ents.append((fn, m))
+        _cache[c] = ents
+    for fn, m in ents:
+        r = fn(ex, m, args, fr, dest)
+        if r is not NotImplemented:
+            ex.E.stats.models_used.add(fn.__name__)
+            return r
+    return NotImplemented
 
 
 def deref(v):
@@ -322,15 +321,21 @@ def str_strip_prefix_char(ex, m, a, fr, dest):
     return none()
 
 
-@model(r'core::str::<impl str>::parse::<u32>')
-def str_parse_u32(ex, m, a, fr, dest):
+@model(r'core::str::<impl str>::parse::<(.*)>')
+def str_parse(ex, m, a, fr, dest):
+    ty = m.group(1)
     s = deref(a[0])
-    if not isinstance(s, str):
-        raise Unsupported('parse::<u32> of symbolic string')
-    t = s[1:] if s.startswith('+') else s
-    if t and all('0' <= ch <= '9' for ch in t) and int(t) < 2 ** 32:
-        return ok(int(t))
-    return err(Opaque('ParseIntError'))
+    if ty in INT_BITS:
+        s = str_simplify(s)
+        if not isinstance(s, str):
+            raise Unsupported('parse::<%s> of symbolic string' % ty)
+        t = s[1:] if s[:1] in ('+', '-') else s
+        if t and all('0' <= ch <= '9' for ch in t) and (s[0] != '-' or ty[0] == 'i'):
+            v = int(s)
+            if in_range(v, ty):
+                return ok(v)
+        return err(Opaque('ParseIntError'))
+    return ex.do_call(fr, '<%s as FromStr>::from_str' % ty, [s], dest)
 
 
 # ============================================================================ Option / Result
@@ -701,7 +706,7 @@ def default_like(ex, v):
     raise Unsupported('default_like(%r)' % (v,))
 
 
-@model(r'must_use::<.*>|(?:std::hint::|core::hint::)?black_box::<.*>|<.* as IntoIterator>::into_iter|<.* as IntoFuture>::into_future|(?:std::convert::)?identity::<.*>|<&?(?:mut )?\w+ as (?:std::borrow::)?Borrow(?:Mut)?<\w+>>::borrow(?:_mut)?')
+@model(r'must_use::<.*>|(?:std::hint::|core::hint::)?black_box::<.*>|<.* as IntoFuture>::into_future|(?:std::convert::)?identity::<.*>|<&?(?:mut )?\w+ as (?:std::borrow::)?Borrow(?:Mut)?<\w+>>::borrow(?:_mut)?')
 def identity(ex, m, a, fr, dest):
     return a[0]
 
@@ -1936,3 +1941,388 @@ def str_eq_ignore_case(ex, m, a, fr, dest):
         f = lambda t: ''.join(c.lower() if c.isascii() else c for c in t)
         return f(x) == f(y)
     raise Unsupported('eq_ignore_ascii_case on symbolic strings')
+
+
+# ============================================================================ generic fallbacks (tried last)
+@model(r'<(.*) as ToOwned>::to_owned')
+def generic_to_owned(ex, m, a, fr, dest):
+    return ex.do_call(fr, '<%s as Clone>::clone' % m.group(1), a, dest)
+
+
+@model(r'<(.*) as Clone>::clone')
+def generic_clone(ex, m, a, fr, dest):
+    return clone_value(ex, deref(a[0]))
+
+
+@model(r'<(.*) as PartialEq(?:<.*>)?>::(eq|ne)')
+def generic_partial_eq(ex, m, a, fr, dest):
+    r = values_eq(ex, a[0], a[1])
+    return r if m.group(2) == 'eq' else b_not(r)
+
+
+@model(r'<(.*) as Default>::default')
+def generic_default(ex, m, a, fr, dest):
+    t = m.group(1)
+    if t in INT_BITS and t != 'bool':
+        return 0
+    if t == 'bool':
+        return False
+    if last_seg(t) == 'String':
+        return ''
+    if last_seg(t) in ('Vec', 'VecDeque'):
+        return VecV([], last_seg(t))
+    if last_seg(t) == 'Option':
+        return none()
+    if last_seg(t) == 'Duration':
+        return Opaque('Duration')
+    return NotImplemented
+
+
+# ============================================================================ tracing catch-all (all levels statically off)
+@model(r'(?:tracing::subscriber::)?Interest::is_never')
+def tracing_is_never(ex, m, a, fr, dest):
+    return True
+
+
+@model(r'(?:tracing::__macro_support::)?__is_enabled|(?:tracing::)?(?:span::)?Span::is_disabled|(?:tracing::)?(?:span::)?Span::is_none')
+def tracing_is_enabled(ex, m, a, fr, dest):
+    return 'is_enabled' not in m.group(0)
+
+
+@model(r'tracing::.*|(?:tracing::)?(?:span::)?Span::\w+(?:::<.*>)?|DefaultCallsite::\w+|<DefaultCallsite as .*>::\w+|<(?:tracing::)?(?:span::)?(?:Span|Entered<.*>|EnteredSpan) as .*>::\w+|(?:tracing::)?Metadata::<.*>::\w+|FieldSet::\w+|(?:tracing::)?Event::<.*>::\w+|(?:tracing::)?(?:field::)?debug::<.*>|(?:tracing::)?(?:field::)?display::<.*>')
+def tracing_any(ex, m, a, fr, dest):
+    return Opaque('tracing')
+
+
+@model(r'<.* as IntoIterator>::into_iter')
+def generic_into_iter(ex, m, a, fr, dest):
+    v = a[0]
+    if isinstance(v, Ref):
+        t = v.get()
+        if isinstance(t, (VecV, Slice)):
+            items, lo, hi = seq_items(t)
+            return PyIter((Ref(items, i, True) for i in range(lo, hi)), hi - lo)
+        if hasattr(t, 'as_pyiter'):
+            return t.as_pyiter(ex)
+        return v
+    if isinstance(v, VecV):
+        items = list(v.items)
+        return PyIter(iter(items), len(items))
+    if isinstance(v, Slice):
+        return PyIter((Ref(v.items, i, True) for i in range(v.lo, v.hi)), v.hi - v.lo)
+    if isinstance(v, Agg) and last_seg(v.ty) == 'Option':
+        return PyIter(iter(v.fields[:1] if v.variant == 1 else []), None)
+    return v
+
+
+@model(r'<(.*) as PartialOrd(<.*>)?>::(lt|le|gt|ge)')
+def generic_partial_ord(ex, m, a, fr, dest):
+    o = ex.do_call(fr, '<%s as PartialOrd%s>::partial_cmp' % (m.group(1), m.group(2) or ''), a, None)
+    if o.variant == 0:
+        return False
+    v = o.fields[0].variant
+    k = m.group(3)
+    return {'lt': b_lt(v, 0), 'le': b_not(b_lt(0, v)), 'gt': b_lt(0, v), 'ge': b_not(b_lt(v, 0))}[k]
+
+
+@model(r'<(u8|u16|u32|u64|usize|i32|i64|char) as PartialOrd>::partial_cmp')
+def int_partial_cmp(ex, m, a, fr, dest):
+    x, y = deref(a[0]), deref(a[1])
+    return some(ordering(ite(b_lt(x, y), -1, ite(b_lt(y, x), 1, 0))))
+
+
+# ============================================================================ more iterator adaptors
+@model(r'<.* as (?:Iterator|DoubleEndedIterator)>::(find|rfind)::<.*>')
+def iter_find(ex, m, a, fr, dest):
+    items = drain(as_pyiter(ex, a[0]))
+    if m.group(1) == 'rfind':
+        items.reverse()
+    for x in items:
+        if ex.branch(ex.call_closure(a[1], [Ref([x], 0)]), 'find'):
+            return some(x)
+    return none()
+
+
+@model(r'<.* as (?:Iterator|DoubleEndedIterator)>::(position|rposition)::<.*>')
+def iter_position(ex, m, a, fr, dest):
+    items = drain(as_pyiter(ex, a[0]))
+    idxs = list(range(len(items)))
+    if m.group(1) == 'rposition':
+        idxs.reverse()
+    for i in idxs:
+        if ex.branch(ex.call_closure(a[1], [items[i]]), 'position'):
+            return some(i)
+    return none()
+
+
+@model(r'<.* as Iterator>::last')
+def iter_last(ex, m, a, fr, dest):
+    items = drain(as_pyiter(ex, a[0]))
+    return some(items[-1]) if items else none()
+
+
+@model(r'<.* as Iterator>::nth')
+def iter_nth(ex, m, a, fr, dest):
+    it = as_pyiter(ex, a[0])
+    n = ex.concretize(a[1], 0, 64, 'nth')
+    o = none()
+    for _ in range(n + 1):
+        o = it.next()
+        if o.variant == 0:
+            return o
+    return o
+
+
+@model(r'<.* as DoubleEndedIterator>::next_back')
+def iter_next_back(ex, m, a, fr, dest):
+    it = deref(a[0])
+    if not isinstance(it, PyIter):
+        return NotImplemented
+    items = drain(it)
+    if not items:
+        return none()
+    last = items.pop()
+    it.it = iter(items)
+    return some(last)
+
+
+@model(r'<.* as Iterator>::(take|skip)')
+def iter_take_skip(ex, m, a, fr, dest):
+    it = as_pyiter(ex, a[0])
+    n = ex.concretize(a[1], 0, 1 << 20, 'take/skip')
+
+    def g():
+        for i, x in enumerate(_gen(it)):
+            if m.group(1) == 'take':
+                if i >= n:
+                    return
+                yield x
+            elif i >= n:
+                yield x
+    return PyIter(g())
+
+
+@model(r'<.* as Iterator>::(take_while|skip_while)::<.*>')
+def iter_take_while(ex, m, a, fr, dest):
+    it = as_pyiter(ex, a[0])
+    f = a[1]
+
+    def g():
+        state = True
+        for x in _gen(it):
+            if m.group(1) == 'take_while':
+                if not ex.branch(ex.call_closure(f, [Ref([x], 0)]), 'take_while'):
+                    return
+                yield x
+            else:
+                if state and ex.branch(ex.call_closure(f, [Ref([x], 0)]), 'skip_while'):
+                    continue
+                state = False
+                yield x
+    return PyIter(g())
+
+
+@model(r'<.* as Iterator>::zip::<.*>')
+def iter_zip(ex, m, a, fr, dest):
+    i1, i2 = as_pyiter(ex, a[0]), as_pyiter(ex, a[1])
+    return PyIter((Agg('tuple', None, [x, y]) for x, y in zip(_gen(i1), _gen(i2))))
+
+
+@model(r'<.* as Iterator>::fold::<.*>')
+def iter_fold(ex, m, a, fr, dest):
+    acc = a[1]
+    for x in _gen(as_pyiter(ex, a[0])):
+        acc = ex.call_closure(a[2], [acc, x])
+    return acc
+
+
+@model(r'<.* as Iterator>::(max_by_key|min_by_key)::<.*>')
+def iter_max_by_key(ex, m, a, fr, dest):
+    items = drain(as_pyiter(ex, a[0]))
+    if not items:
+        return none()
+    best, bk = items[0], ex.call_closure(a[1], [Ref([items[0]], 0)])
+    for x in items[1:]:
+        k = ex.call_closure(a[1], [Ref([x], 0)])
+        c = generic_cmp(ex, k, bk, fr)
+        if (m.group(1) == 'max_by_key' and c >= 0) or (m.group(1) == 'min_by_key' and c < 0):
+            best, bk = x, k
+    return some(best)
+
+
+@model(r'<.* as Iterator>::(max_by|min_by)::<.*>')
+def iter_max_by(ex, m, a, fr, dest):
+    items = drain(as_pyiter(ex, a[0]))
+    if not items:
+        return none()
+    best = items[0]
+    for x in items[1:]:
+        v = ex.call_closure(a[1], [Ref([best], 0), Ref([x], 0)]).variant
+        if is_sym(v):
+            v = ex.concretize(v, -1, 1, 'max_by')
+        if (m.group(1) == 'max_by' and v <= 0) or (m.group(1) == 'min_by' and v > 0):
+            best = x
+    return some(best)
+
+
+@model(r'<.* as Iterator>::size_hint|<.* as ExactSizeIterator>::len')
+def iter_len(ex, m, a, fr, dest):
+    it = deref(a[0])
+    items = drain(it)
+    it.it = iter(items)
+    if 'size_hint' in m.group(0):
+        return Agg('tuple', None, [len(items), some(len(items))])
+    return len(items)
+
+
+@model(r'<.* as Iterator>::inspect::<.*>')
+def iter_inspect(ex, m, a, fr, dest):
+    it = as_pyiter(ex, a[0])
+
+    def g():
+        for x in _gen(it):
+            ex.call_closure(a[1], [Ref([x], 0)])
+            yield x
+    return PyIter(g())
+
+
+@model(r'<.* as Itertools>::(sorted_by|sorted_unstable_by)::<.*>')
+def iter_sorted_by(ex, m, a, fr, dest):
+    items = drain(as_pyiter(ex, a[0]))
+
+    def cmp(x, y):
+        v = ex.call_closure(a[1], [Ref([x], 0), Ref([y], 0)]).variant
+        return ex.concretize(v, -1, 1, 'sorted_by') if is_sym(v) else v
+    items = sort_values(ex, items, cmp)
+    return PyIter(iter(items), len(items))
+
+
+@model(r'<.* as Itertools>::(sorted_by_key|sorted_unstable_by_key)::<.*>')
+def iter_sorted_by_key(ex, m, a, fr, dest):
+    items = drain(as_pyiter(ex, a[0]))
+    keyed = [(ex.call_closure(a[1], [Ref([x], 0)]), x) for x in items]
+    keyed = sort_values(ex, keyed, lambda p, q: generic_cmp(ex, p[0], q[0], fr))
+    return PyIter(iter([kv[1] for kv in keyed]), len(keyed))
+
+
+@model(r'<.* as Itertools>::(dedup|unique)')
+def iter_dedup(ex, m, a, fr, dest):
+    items = drain(as_pyiter(ex, a[0]))
+    out = []
+    for x in items:
+        pool = out[-1:] if m.group(1) == 'dedup' else out
+        if any(ex.branch(values_eq(ex, y, x), 'dedup') for y in pool):
+            continue
+        out.append(x)
+    return PyIter(iter(out), len(out))
+
+
+@model(r'<.* as Itertools>::join')
+def iter_join(ex, m, a, fr, dest):
+    items = drain(as_pyiter(ex, a[0]))
+    sep = deref(a[1])
+    out = ''
+    for i, x in enumerate(items):
+        if i:
+            out = str_concat(out, sep)
+        out = str_concat(out, render_arg(ex, FmtArg('display', '', x), Formatter(), fr))
+    return str_simplify(out)
+
+
+@model(r'(?:std::vec::)?Vec::<.*>::(insert|remove|swap_remove)')
+def vec_insert_remove(ex, m, a, fr, dest):
+    v = vec_of(a[0])
+    i = ex.concretize(a[1], 0, len(v.items) + 1, 'vec index')
+    if m.group(1) == 'insert':
+        if i > len(v.items):
+            raise Panic('insertion index out of bounds', fr.name)
+        v.items.insert(i, a[2])
+        return UNIT
+    if i >= len(v.items):
+        raise Panic('removal index out of bounds', fr.name)
+    if m.group(1) == 'remove':
+        return v.items.pop(i)
+    x = v.items[i]
+    v.items[i] = v.items[-1]
+    v.items.pop()
+    return x
+
+
+@model(r'(?:std::vec::)?Vec::<.*>::(dedup|reverse)|core::slice::<impl \[.*\]>::reverse')
+def vec_reverse(ex, m, a, fr, dest):
+    items, lo, hi = seq_items(deref(a[0]))
+    if 'reverse' in m.group(0):
+        items[lo:hi] = items[lo:hi][::-1]
+        return UNIT
+    out = []
+    for x in items[lo:hi]:
+        if out and ex.branch(values_eq(ex, out[-1], x), 'dedup'):
+            continue
+        out.append(x)
+    items[lo:hi] = out
+    return UNIT
+
+
+@model(r'core::slice::<impl \[.*\]>::(get|get_mut)::<usize>|(?:std::vec::)?Vec::<.*>::(get|get_mut)::<usize>')
+def slice_get(ex, m, a, fr, dest):
+    items, lo, hi = seq_items(deref(a[0]))
+    i = ex.concretize(a[1], 0, hi - lo + 1, 'get') if not is_sym(a[1]) or True else a[1]
+    if 0 <= i < hi - lo:
+        return some(Ref(items, lo + i, True))
+    return none()
+
+
+@model(r'core::slice::<impl \[.*\]>::binary_search_by::<.*>')
+def slice_binary_search_by(ex, m, a, fr, dest):
+    items, lo0, hi0 = seq_items(deref(a[0]))
+    f = a[1]
+    size = hi0 - lo0
+    if size == 0:
+        return err(0)
+
+    def cmp(i):
+        v = ex.call_closure(f, [Ref(items, lo0 + i)]).variant
+        return ex.concretize(v, -1, 1, 'bsearch') if is_sym(v) else v
+    base = 0
+    while size > 1:
+        half = size // 2
+        mid = base + half
+        base = base if cmp(mid) > 0 else mid
+        size -= half
+    c = cmp(base)
+    if c == 0:
+        return ok(base)
+    return err(base + (1 if c < 0 else 0))
+
+
+@model(r'core::slice::<impl \[.*\]>::partition_point::<.*>')
+def slice_partition_point(ex, m, a, fr, dest):
+    items, lo0, hi0 = seq_items(deref(a[0]))
+    n = 0
+    # binary search as in core (left-most false)
+    size = hi0 - lo0
+    left, right = 0, size
+    while left < right:
+        mid = left + (right - left) // 2
+        if ex.branch(ex.call_closure(a[1], [Ref(items, lo0 + mid)]), 'partition_point'):
+            left = mid + 1
+        else:
+            right = mid
+    return left
+
+
+@model(r'<\[.*\] as (?:std::ops::)?Index<(?:std::ops::)?(Range|RangeTo|RangeInclusive|RangeFull)<?(?:usize)?>?>>::index|<(?:std::vec::)?Vec<.*> as (?:std::ops::)?Index<(?:std::ops::)?(Range|RangeTo|RangeFull)<?(?:usize)?>?>>::index|core::slice::index::<impl (?:std::ops::)?Index<(?:std::ops::)?(Range|RangeTo)<usize>> for \[.*\]>::index')
+def slice_index_range(ex, m, a, fr, dest):
+    items, lo, hi = seq_items(deref(a[0]))
+    kind = [g for g in m.groups() if g][0]
+    r = a[1]
+    n = hi - lo
+    if kind == 'RangeFull':
+        return Slice(items, lo, hi)
+    if kind == 'RangeTo':
+        s, e = 0, ex.concretize(r.fields[0], 0, n + 1, 'range')
+    else:
+        s, e = ex.concretize(r.fields[0], 0, n + 1, 'range'), ex.concretize(r.fields[1], 0, n + 1, 'range')
+    if s > e or e > n:
+        raise Panic('slice index out of range', fr.name)
+    return Slice(items, lo + s, lo + e)
